@@ -4,6 +4,8 @@ import ast
 from ..model import AnalysisError
 from ..lib import (FV, decode_new, decode_call, phi_members, is_sym, is_const, is_str, strip_stores, stores_of, tuple_consts,
                    find_assign, find_assigns, simple_assigns, local_term)
+from ..lib import (reached_iff, reached_implies, implies_reached, reached_iff_any, path_term, cond_equiv, cond_implies,  # noqa: F401
+                   else_stmts, branch_stmts, context_literals)
 from ..cfg import always_raises, walk_stmts
 from . import common as cm
 from . import geom
@@ -237,20 +239,22 @@ def d4_representations(chk, repo):
     chk.rule("C16.D4", "representations: xml -> XML writer; bin/bin8/txt -> legacy writer (ASCII for txt, binary otherwise); anything "
                        "else is refused; the grid written is self.to_vtk(); the side-car is written iff subregions exist")
     v = FV(repo, VTK + "_to_vtk", self_type=FIELD)
-    okx = okb = False
-    for st in v.stmts():
-        if isinstance(st, ast.If) and st.body and isinstance(st.body[0], ast.Assign):
-            ct = v.ev.term(st.test, at=st)
-            wt = v.term(st.body[0].value, at=st.body[0])
-            nm = (v.ctx.head_of(wt) or ("", "", ""))
-            if v.eq(ct, v.spec("representation == 'xml'")):
-                okx = "vtkXMLRectilinearGridWriter" in v.show(wt)
-                nxt = st.orelse[0] if st.orelse and isinstance(st.orelse[0], ast.If) else None
-                if nxt is not None:
-                    ct2 = v.ev.term(nxt.test, at=nxt)
-                    okb = v.eq(ct2, v.spec("representation in ['bin', 'bin8', 'txt']")) and \
-                        "vtkRectilinearGridWriter" in v.show(v.term(nxt.body[0].value, at=nxt.body[0])) and \
-                        bool(nxt.orelse) and always_raises(nxt.orelse)
+    from ..lib import values_reaching, _OTHER
+    rep = v.ev._sym("param:representation")
+    sel = {}
+    for st, nm, wt in simple_assigns(v):
+        sh = v.show(wt)
+        kind = "xml" if "vtkXMLRectilinearGridWriter" in sh else ("legacy" if "vtkRectilinearGridWriter" in sh else None)
+        if kind:
+            vals = values_reaching(v, st, rep)
+            sel.setdefault(kind, set()).update(vals if vals is not None else {None})
+    refused = set()
+    for r_, n_ in v.raises():
+        if n_ == "ValueError":
+            vals = values_reaching(v, r_, rep)
+            refused |= (vals if vals is not None else {None})
+    okx = sel.get("xml") == {"xml"}
+    okb = sel.get("legacy") == {"bin", "bin8", "txt"} and _OTHER in refused
     chk.ob("io.vtk._to_vtk::writer-selection", okx and okb, "C16.D4",
            "xml -> vtkXMLRectilinearGridWriter; bin/bin8/txt -> vtkRectilinearGridWriter; otherwise ValueError", v.f)
     modes = {}
